@@ -33,7 +33,7 @@ PROPS = {
                 "oracle = login model (valid handshake AND account exists AND wire password == stored password AND address not banned) "
                 "plus: bytes received, config/file snapshot unchanged, observers receive nothing, user list unchanged; "
                 "non-trivial = valid handshake, complete first transaction, rejected, and (near-miss credentials for an existing account "
-                "OR appended state-changing transactions); distinct = hash(handshake, first transaction, appended kinds, ban, accounts)",
+                "OR appended state-changing transactions); distinct = hash(handshake, first transaction, appended kinds, ban, accounts); in half of the cases an administrator first renames / re-passwords / deletes up to two accounts through the protocol and the attempt is aimed at the old or new login with the previous or current password (existing account and current password are meant at the time of the login)",
         "assumptions": ["synctest fake clock; stoppable replica of the 6-line outbox pump calling the production sendTransaction",
                         "passwords <= 72 bytes (bcrypt limit)"],
         "quick": {"runs": [{"test": "^TestC04$", "shards": 16, "checks": 500, "timeout": 300}]},
